@@ -2,6 +2,7 @@ package base
 
 import (
 	"errors"
+	"fmt"
 	"github.com/bilibili/gengine/context"
 	"reflect"
 )
@@ -66,7 +67,11 @@ func (e *ExpressionAtom) AcceptMapVar(mapVar *MapVar) error {
 
 func (e *ExpressionAtom) Evaluate(dc *context.DataContext, Vars map[string]reflect.Value) (reflect.Value, error) {
 	if len(e.Variable) > 0 {
-		return dc.GetValue(Vars, e.Variable)
+		v, err := dc.GetValue(Vars, e.Variable)
+		if err != nil {
+			return reflect.ValueOf(nil), errors.New(fmt.Sprintf("line %d, column %d, code: %s, %+v", e.LineNum, e.Column, e.Code, err))
+		}
+		return v, nil
 	} else if e.Constant != nil {
 		return e.Constant.Evaluate(dc, Vars)
 	} else if e.FunctionCall != nil {
